@@ -198,7 +198,8 @@ func (svg *SVGImage) drawNode(dst backend.Canvas, node *svgNode, dims drawingDim
 
 		// do the actual painting :
 		// paint by filling and stroking the given node onto the graphic target
-		if paint && !isText {
+		// (only shapes build a path of their own, not containers, images or <use>)
+		if paint && !isText && visible && isShape(node.graphicContent) && !drawsNothing(node, dims) {
 			dst.Paint(newPaintOp(doFill, doStroke, node.isFillEvenOdd))
 		}
 
@@ -218,6 +219,35 @@ func (svg *SVGImage) drawNode(dst backend.Canvas, node *svgNode, dims drawingDim
 		dst.OnNewStack(paintTask)
 	} else {
 		paintTask()
+	}
+}
+
+// isShape returns true for the contents which build a path to be painted
+func isShape(content drawable) bool {
+	switch content.(type) {
+	case line, rect, polyline, ellipse, path:
+		return true
+	default:
+		return false
+	}
+}
+
+// drawsNothing returns true for the degenerate shapes whose
+// draw method does not build any path
+func drawsNothing(node *svgNode, dims drawingDims) bool {
+	switch content := node.graphicContent.(type) {
+	case rect:
+		width, height := dims.point(node.attributes.width, node.attributes.height)
+		return width <= 0 || height <= 0
+	case ellipse:
+		rx, ry := dims.point(content.rx, content.ry)
+		return rx == 0 || ry == 0
+	case polyline:
+		return len(content.points) == 0
+	case path:
+		return len(content) == 0
+	default:
+		return false
 	}
 }
 
